@@ -385,6 +385,9 @@ func (l *Listener) Closed() bool {
 // Dial creates a connection from clientAddr ("" = fresh address) and queues it on
 // the listener; the accept loop wakes up and hands it to net/http.
 func (s *Sim) Dial(l *Listener, clientAddr string) *Conn {
+	if l == nil {
+		panic("sim: Dial before the accessory listens")
+	}
 	s.mu.Lock()
 	id := len(s.Conns)
 	if clientAddr == "" {
